@@ -844,6 +844,10 @@ def inv_hier(real, h, comp, n_ids, ll_names):
     full = h.get_parameter_names(include_ids=True)
     if len(full) != n or len(set(full)) != n:
         return 'unique', 'names prefixed by their ID are not distinct: %s' % (list(full),)
+    # the two naming options combine: population-level entries carry no ID, so their names are the same with and without the prefix
+    both = h.get_parameter_names(exclude_bottom_level=True, include_ids=True)
+    if list(both) != list(names[nb:]) or list(both) != list(full[nb:]):
+        return 'order', 'get_parameter_names(exclude_bottom_level=True, include_ids=True) = %s; the population-level entries are %s' % (list(both), list(names[nb:]))
     x = ll_values(n)
     try:
         v = float(h(x))
@@ -941,6 +945,9 @@ def filter_posteriors(rec):
         full = post.get_parameter_names(include_ids=True)
         if len(set(full)) != n:
             return 'unique', 'names prefixed by their ID are not distinct: %s' % (list(full),)
+        both = post.get_parameter_names(exclude_bottom_level=True, include_ids=True)
+        if list(both) != list(full[:n_top]) or list(both) != list(post.get_parameter_names(exclude_bottom_level=True)):
+            return 'order', 'get_parameter_names(exclude_bottom_level=True, include_ids=True) = %s; the population-level entries are %s' % (list(both), list(full[:n_top]))
         x = ll_values(n)
         try:
             v = float(post(x))
